@@ -231,7 +231,8 @@ def distribute_quotient(expr):
             done += [sym.Quotient(item, expr.denominator)]
 
     if not done:
-        return sym.IntLiteral(1)
+        # All summands of the numerator were zero
+        return sym.IntLiteral(0)
     if len(done) == 1:
         return done[0]
     return sym.Sum(as_tuple(done))
